@@ -187,8 +187,12 @@ pub struct Node {
     pub buffered: Option<u32>,
     /// values this node produced, in order
     pub produced: Vec<u32>,
+    /// value carried by the node's final result (Ready / Ok / Err), if any
+    pub final_val: Option<u32>,
     pub handed: Vec<(u32, Waker)>,
     pub pending_events: u32,
+    /// PollEnd records of this node's direct children during its current / most recent poll
+    pub frame: Vec<(NodeId, Res, Option<u32>)>,
     // ---- leaf script ----
     pub script: Vec<Step>,
     pub pos: usize,
@@ -218,8 +222,10 @@ impl Node {
             self_woke: false,
             buffered: None,
             produced: Vec::new(),
+            final_val: None,
             handed: Vec::new(),
             pending_events: 0,
+            frame: Vec::new(),
             script: Vec::new(),
             pos: 0,
             term: Terminal::Finished,
@@ -302,6 +308,16 @@ pub struct Stats {
     pub p_big_len: u64,
     pub p_remove_live: u64,
     pub p_refill: u64,
+    /// how often each family of oracle rules was actually evaluated
+    pub o_lr_frames: u64,
+    pub o_cp1: u64,
+    pub o_cp2: u64,
+    pub o_quiescence: u64,
+    pub o_c16: u64,
+    pub o_c20: u64,
+    pub o_group_view: u64,
+    pub o_co_final: u64,
+    pub o_drop_accounting: u64,
     pub root_polls: u64,
     pub child_polls: u64,
     pub wakes: u64,
@@ -317,7 +333,8 @@ impl Stats {
             f_spurious, f_new_waker, f_same_waker, f_stale, f_dup, f_inpoll, f_selfnow, f_lock,
             f_after_done, f_after_drop, f_cancel, f_panic, f_never, f_slot_reuse, f_growth,
             f_delayed, p_repoll_after_selfwake, p_bit_already_set, p_zip_late_row, p_multi_end, p_multi_end_gt10,
-            p_backpressure, p_err_in_flush, p_err_saturated, p_err_in_progress, p_big_len, p_remove_live, p_refill, root_polls,
+            p_backpressure, p_err_in_flush, p_err_saturated, p_err_in_progress, p_big_len, p_remove_live, p_refill, o_lr_frames, o_cp1, o_cp2, o_quiescence, o_c16, o_c20, o_group_view,
+            o_co_final, o_drop_accounting, root_polls,
             child_polls, wakes, group_ops, vtime, steps
         );
     }
@@ -327,7 +344,8 @@ impl Stats {
             f_spurious, f_new_waker, f_same_waker, f_stale, f_dup, f_inpoll, f_selfnow, f_lock,
             f_after_done, f_after_drop, f_cancel, f_panic, f_never, f_slot_reuse, f_growth,
             f_delayed, p_repoll_after_selfwake, p_bit_already_set, p_zip_late_row, p_multi_end, p_multi_end_gt10,
-            p_backpressure, p_err_in_flush, p_err_saturated, p_err_in_progress, p_big_len, p_remove_live, p_refill, root_polls,
+            p_backpressure, p_err_in_flush, p_err_saturated, p_err_in_progress, p_big_len, p_remove_live, p_refill, o_lr_frames, o_cp1, o_cp2, o_quiescence, o_c16, o_c20, o_group_view,
+            o_co_final, o_drop_accounting, root_polls,
             child_polls, wakes, group_ops, vtime, steps
         )
     }
@@ -363,6 +381,8 @@ pub struct World {
     /// child poll counter (for fault enumeration) and the poll at which to panic
     pub child_poll_counter: u32,
     pub panic_at_child_poll: u32,
+    pub closure_call_counter: u32,
+    pub panic_at_closure_call: u32,
     pub nontrivial_pending: bool,
     pub nontrivial_wake: bool,
     // family specific model state lives here too
@@ -432,6 +452,8 @@ impl World {
             frame: Vec::new(),
             child_poll_counter: 0,
             panic_at_child_poll: 0,
+            closure_call_counter: 0,
+            panic_at_closure_call: 0,
             nontrivial_pending: false,
             nontrivial_wake: false,
             model: crate::oracle::Model::default(),
@@ -529,6 +551,9 @@ impl World {
             parts,
             absorbed: false,
         });
+        if by != NO_NODE {
+            self.nodes[by as usize].produced.push(id);
+        }
         id
     }
 
